@@ -104,6 +104,10 @@ type pathState struct {
 	asserts  []string
 	harness  string
 	params   map[string]int64
+	// model is a full assignment known to satisfy pc when modelOK (missing vars are 0)
+	model   map[string]uint64
+	modelOK bool
+	facts   map[int]bool // term id -> truth value implied by the path condition
 }
 
 func newPathState(i *interpreter, prefix []int32, harness string) *pathState {
@@ -111,6 +115,9 @@ func newPathState(i *interpreter, prefix []int32, harness string) *pathState {
 		i: i, tt: newTermTable(), sol: i.sol, prefix: prefix, covers: make(map[string]bool),
 		harness: harness, maxSteps: i.maxSteps, params: i.params,
 	}
+	ps.model = map[string]uint64{}
+	ps.facts = map[int]bool{}
+	ps.modelOK = len(prefix) == 0
 	ps.res = &PathResult{Prefix: prefix, Covers: ps.covers, AssertsSeen: make(map[string]int)}
 	ps.sol.reset()
 	return ps
@@ -121,6 +128,21 @@ func (ps *pathState) addPC(c *Term) {
 		return
 	}
 	ps.pc = append(ps.pc, c)
+	ps.learn(c, true)
+}
+
+// learn records that c has truth value v on this path.
+func (ps *pathState) learn(c *Term, v bool) {
+	ps.facts[c.id] = v
+	if c.op == "not" {
+		ps.learn(c.args[0], !v)
+	} else if c.op == "and" && v {
+		ps.learn(c.args[0], true)
+		ps.learn(c.args[1], true)
+	} else if c.op == "or" && !v {
+		ps.learn(c.args[0], false)
+		ps.learn(c.args[1], false)
+	}
 }
 
 func (ps *pathState) flush() {
@@ -138,9 +160,13 @@ func (ps *pathState) branch(c *Term) bool {
 	if c.isConst() {
 		return c.val == 1
 	}
+	if v, ok := ps.facts[c.id]; ok {
+		return v
+	}
 	if ps.inPrefix() {
 		d := ps.prefix[len(ps.dec)]
 		ps.dec = append(ps.dec, d)
+		ps.modelOK = false
 		switch d {
 		case 1:
 			ps.addPC(c)
@@ -149,39 +175,76 @@ func (ps *pathState) branch(c *Term) bool {
 			ps.addPC(ps.tt.Not(c))
 			return false
 		case 3:
+			ps.learn(c, true)
 			return true
 		default:
+			ps.learn(c, false)
 			return false
 		}
 	}
-	ps.flush()
 	ps.res.NewDecisions++
-	rt := ps.sol.check(c, false)
-	rf := ps.sol.check(c, true)
-	if rt == resUnknown {
+	if !ps.ensureModel() {
+		panic(pathEnd{"infeasible"})
+	}
+	// follow the side the current model takes; ask the solver about the other one
+	mv := c.eval(ps.model, map[*Term]uint64{}) == 1
+	ps.flush()
+	other := ps.sol.check(c, mv) // mv true -> query ¬c ; mv false -> query c
+	if other == resUnknown {
 		ps.res.Unknowns++
 	}
-	if rf == resUnknown {
-		ps.res.Unknowns++
-	}
-	ft, ff := rt != resUnsat, rf != resUnsat
-	switch {
-	case ft && ff:
+	if other != resUnsat {
 		sib := make([]int32, len(ps.dec)+1)
 		copy(sib, ps.dec)
-		sib[len(ps.dec)] = 0
+		if mv {
+			sib[len(ps.dec)] = 0
+		} else {
+			sib[len(ps.dec)] = 1
+		}
 		ps.res.Siblings = append(ps.res.Siblings, sib)
-		ps.dec = append(ps.dec, 1)
-		ps.addPC(c)
-		return true
-	case ft:
+		if mv {
+			ps.dec = append(ps.dec, 1)
+			ps.addPC(c)
+		} else {
+			ps.dec = append(ps.dec, 0)
+			ps.addPC(ps.tt.Not(c))
+		}
+		return mv
+	}
+	if mv {
 		ps.dec = append(ps.dec, 3)
-		return true
-	case ff:
+	} else {
 		ps.dec = append(ps.dec, 2)
+	}
+	ps.learn(c, mv)
+	return mv
+}
+
+// ensureModel makes ps.model a satisfying assignment of the current pc; false if the
+// pc is unsatisfiable.
+func (ps *pathState) ensureModel() bool {
+	if ps.modelOK {
+		return true
+	}
+	ps.flush()
+	r := ps.sol.check(nil, false)
+	if r == resUnsat {
 		return false
 	}
-	panic(pathEnd{"infeasible"})
+	if r == resUnknown {
+		ps.res.Unknowns++
+		// fall back: no model; evaluate under zeros but keep asking both sides
+		ps.res.Inconclusive = append(ps.res.Inconclusive, "solver unknown on path condition")
+		return false
+	}
+	_, m, err := ps.model2()
+	if err != nil {
+		ps.res.Inconclusive = append(ps.res.Inconclusive, "model extraction failed: "+err.Error())
+		return false
+	}
+	ps.model = m
+	ps.modelOK = true
+	return true
 }
 
 // assume restricts the path; an infeasible assumption ends it.
@@ -194,14 +257,14 @@ func (ps *pathState) assume(c *Term) {
 	}
 	ps.addPC(c)
 	if ps.inPrefix() {
+		ps.modelOK = false
 		return
 	}
-	ps.flush()
-	r := ps.sol.check(nil, false)
-	if r == resUnknown {
-		ps.res.Unknowns++
+	if ps.modelOK && c.eval(ps.model, map[*Term]uint64{}) == 1 {
+		return
 	}
-	if r == resUnsat {
+	ps.modelOK = false
+	if !ps.ensureModel() {
 		panic(pathEnd{"assume-infeasible"})
 	}
 }
@@ -213,7 +276,7 @@ func (ps *pathState) fresh(kind, label string, w int) *Term {
 	return t
 }
 
-func (ps *pathState) model() ([]ReplayValue, map[string]uint64, error) {
+func (ps *pathState) model2() ([]ReplayValue, map[string]uint64, error) {
 	var vs []*Term
 	for _, v := range ps.vars {
 		vs = append(vs, v.term)
@@ -227,6 +290,14 @@ func (ps *pathState) model() ([]ReplayValue, map[string]uint64, error) {
 		out[i] = ReplayValue{Kind: v.Kind, Value: m[v.Name], Label: v.Label}
 	}
 	return out, m, nil
+}
+
+func (ps *pathState) valuesOf(m map[string]uint64) []ReplayValue {
+	out := make([]ReplayValue, len(ps.vars))
+	for i, v := range ps.vars {
+		out[i] = ReplayValue{Kind: v.Kind, Value: m[v.Name] & mask(v.term.w), Label: v.Label}
+	}
+	return out
 }
 
 func (ps *pathState) coverList() []string {
@@ -255,7 +326,7 @@ func (ps *pathState) assert(c *Term, label string) {
 	if c.isFalse() {
 		r := ps.sol.check(nil, false)
 		if r == resSat {
-			vals, _, err := ps.model()
+			vals, _, err := ps.model2()
 			if err != nil {
 				ps.res.Inconclusive = append(ps.res.Inconclusive, "model extraction failed: "+err.Error())
 			} else {
@@ -267,10 +338,19 @@ func (ps *pathState) assert(c *Term, label string) {
 		}
 		panic(pathEnd{"assert-false"})
 	}
+	if v, ok := ps.facts[c.id]; ok && v {
+		return
+	}
+	if ps.modelOK && c.eval(ps.model, map[*Term]uint64{}) == 0 {
+		// the current model is already a counterexample
+		ps.recordViolation("assert", label, "", ps.valuesOf(ps.model))
+		ps.assume(c)
+		return
+	}
 	r := ps.sol.check(c, true)
 	switch r {
 	case resSat:
-		vals, _, err := ps.model()
+		vals, _, err := ps.model2()
 		if err != nil {
 			ps.res.Inconclusive = append(ps.res.Inconclusive, "model extraction failed: "+err.Error())
 		} else {
@@ -279,6 +359,10 @@ func (ps *pathState) assert(c *Term, label string) {
 	case resUnknown:
 		ps.res.Unknowns++
 		ps.res.Inconclusive = append(ps.res.Inconclusive, "solver unknown on assertion "+label)
+	case resUnsat:
+		// implied by the path condition: remember it, no need to assert it
+		ps.learn(c, true)
+		return
 	}
 	ps.assume(c)
 }
@@ -288,7 +372,7 @@ func (ps *pathState) uncaughtPanic(msg string) {
 	ps.flush()
 	r := ps.sol.check(nil, false)
 	if r == resSat {
-		vals, _, err := ps.model()
+		vals, _, err := ps.model2()
 		if err == nil {
 			ps.recordViolation("panic", "uncaught-panic", msg, vals)
 			return
@@ -309,14 +393,10 @@ func (ps *pathState) finish(wantSample bool) {
 	if !wantSample {
 		return
 	}
-	ps.flush()
-	if ps.sol.check(nil, false) != resSat {
+	if !ps.ensureModel() {
 		return
 	}
-	vals, m, err := ps.model()
-	if err != nil {
-		return
-	}
+	vals, m := ps.valuesOf(ps.model), ps.model
 	s := &PathSample{Decisions: ps.dec, Values: vals, Asserts: ps.asserts, Covers: ps.coverList()}
 	for _, o := range ps.obs {
 		s.Observed = append(s.Observed, ObsRecord{Label: o.label, Val: renderUnder(o.val, m)})
